@@ -1,4 +1,4 @@
 CONSTANTS N = 1  Tokens = {"t1"}  Outcomes = {"ok"}  Disabled = FALSE  MaxSteps = 9  Variant = "code"
 SPECIFICATION Spec
-INVARIANTS TypeOK Counter HealthyIff Export
+INVARIANTS TypeOK Counter Clock HealthyIff Export
 CHECK_DEADLOCK FALSE
